@@ -92,6 +92,12 @@ def run_pair(ctx, drv, scs, props, name, parallel=48, classify=None, what='TCP b
     inconclusive = []
     ok_idx = [i for i in range(len(scs)) if i not in inconclusive and not any(e.get('ev') == 'panic' for e in segs[i])]
     tc = tcfg(props)
+    if 'C01' not in props:
+        # the payload bytes of wire events are only read by the C01 clauses: drop them (two thirds of the trace volume)
+        for sg in segs:
+            for e in sg:
+                if e.get('ev') in ('emit', 'arrive', 'drop') and e.get('pay'):
+                    e['pay'] = []
     # Validation in passes: findings the spec can step over (KF_FLAG) that are known and hit once are switched on for every
     # segment that has no verdict yet, and those segments are validated again, so that a frequent known finding (F4 shows up
     # in almost every transfer with default buffers) does not leave the rest of the traces unexamined.
